@@ -26,6 +26,9 @@ CHECKS = {
     'C16': ('symbolic execution of the real FormFactor on a symbolic s; transcendental exp decided by cvc5 (QF_NRAT) for every real s in [0,2]',
             'Bounded model checking: per element 4 obligations (formula equals live table, |f(0)-Z|<=0.1, f>0 on [0,2], df/ds<0 on (0,2]) decided for all real s, '
             'not on a grid; all 94 table entries.', '', '6/C16'),
+    'C10': ('symbolic execution of the real detector functions on symbolic angles/geometry; rational-function identities by z3/cvc5 (QF_NRA); ray-parameter positivity by solver-checked assume-guarantee decomposition',
+            'Bounded model checking over exact reals: det_coor = det_coor2, back-projected point on the scattered ray, det_v = v, detect_tilt = Rx.Ry.Rz orthonormal, '
+            'denominator and ray parameter positive on the whole stated domain.', '', '6/C10'),
 }
 NA_REASON = {}
 
